@@ -82,7 +82,7 @@ def run(tier, seed):
     try:
         vh = core.build_harness()
         # ---- message algebra
-        n = 6000 if tier == "quick" else 150000
+        n = 6000 if tier == "quick" else 300000
         cases = [msggen.case(rng) for _ in range(n)]
         cin, cexp = os.path.join(wd, "msg.cases.ndjson"), os.path.join(wd, "msg.exp.ndjson")
         with open(cin, "w") as f:
